@@ -1,4 +1,4 @@
-CONSTANTS MaxLen = 3  MaxByte = 3  MaxPasses = 2  Bug = "NoPkgEndCheck"
+CONSTANTS MaxLen = 3  MaxByte = 3  MaxPasses = 2  MaxDepth = 1  Bug = "NoPkgEndCheck"
 INIT Init
 NEXT Next
 INVARIANT Robust
